@@ -55,6 +55,8 @@ func c13Scenarios() []c13Scenario {
 		{"stat-dirsize", false, []wire.Req{wire.P(wire.OpStat, "/dir/a.txt"), wire.P(wire.OpDirSize, "/dir"), wire.P(wire.OpStat, "/links/lfile"), wire.P(wire.OpDirSize, "/"), wire.P(wire.OpStat, "/nope")}},
 		{"upload", true, []wire.Req{wire.P(wire.OpCreate, "/up/new.bin"), wire.Write(tree.Content(1, 70000)), wire.Write(tree.Content(2, 10)), wire.P(wire.OpCreate, "/up/second.bin"), wire.Write(tree.Content(3, 3000)), wire.P(wire.OpMkdir, "/up/d"), wire.P(wire.OpDelete, "/up/second.bin"), wire.P(wire.OpRmdir, "/up/d"), wire.P(wire.OpCreate, "/up/old.bin"), wire.Write(tree.Content(4, 100))}},
 		{"opendir-of-files", false, []wire.Req{wire.P(wire.OpOpenDir, "/file.bin"), wire.Bare(wire.OpRDE), wire.P(wire.OpOpenDir, "/dir"), wire.P(wire.OpOpenDir, "/big.bin"), wire.Bare(wire.OpReadDir), wire.P(wire.OpOpenDir, "/PS3ISO/enc.iso"), wire.P(wire.OpOpenDir, "/nope"), wire.P(wire.OpOpenDir, "/links/lfile")}},
+		{"virtual-as-directory", false, []wire.Req{wire.P(wire.OpOpenDir, "/***DVD***/dir/sub"), wire.Bare(wire.OpRDE), wire.Bare(wire.OpRDE2), wire.Bare(wire.OpReadDir), wire.P(wire.OpOpenDir, "/dir"), wire.P(wire.OpOpenDir, "/***DVD***/dir"), wire.Bare(wire.OpRDE), wire.Bare(wire.OpRDE), wire.P(wire.OpOpenDir, "/***PS3***/game/PS3_GAME"), wire.Bare(wire.OpRDE2), wire.P(wire.OpStat, "/dir")}},
+		{"psx-cd-image", false, []wire.Req{wire.P(wire.OpOpen, "/cd/game2448.bin"), wire.CD(0, 2), wire.CD(17, 3), wire.Read(100, 24+16*2448), wire.P(wire.OpOpen, "/cd/game2336.bin"), wire.CD(5, 2), wire.CD(800, 1)}},
 		{"mixed-handles", false, []wire.Req{wire.P(wire.OpOpenDir, "/dir"), wire.P(wire.OpOpen, "/file.bin"), wire.Bare(wire.OpRDE), wire.Read(100, 0), wire.P(wire.OpOpen, "/***DVD***/dir"), wire.P(wire.OpOpenDir, "/links"), wire.Read(4096, 0), wire.P(wire.OpOpen, "/PS3ISO/enc.iso"), wire.Bare(wire.OpReadDir), wire.Crit(100, 5000)}},
 	}
 }
@@ -74,6 +76,9 @@ func c13Tree(root string) {
 	must(os.Symlink("target.bin", filepath.Join(root, "links", "lfile")))
 	must(os.Symlink("tdir", filepath.Join(root, "links", "ldir")))
 	must(os.Symlink("nowhere", filepath.Join(root, "links", "ldangling")))
+	must(os.MkdirAll(filepath.Join(root, "cd"), 0o755))
+	makeCD(root, &cdImage{rel: "cd/game2448.bin", S: 2448, sig: "iso", size: 900 * 2448}, 71, nil)
+	makeCD(root, &cdImage{rel: "cd/game2336.bin", S: 2336, sig: "psx", size: 950*2336 + 100}, 72, nil)
 	must(os.MkdirAll(filepath.Join(root, "PS3ISO"), 0o755))
 	must(os.MkdirAll(filepath.Join(root, "REDKEY"), 0o755))
 	must(os.MkdirAll(filepath.Join(root, "k3"), 0o755))
@@ -250,10 +255,9 @@ func c13Judge(req wire.Req, ref, got []byte, st wire.ReadStatus) (string, string
 		}
 		return "subset", ""
 	case wire.OpDirSize:
-		if len(got) == 8 && wire.I64(got) >= 0 && wire.I64(got) <= wire.I64(ref) {
-			return "partial-sum", ""
-		}
-		return "", fmt.Sprintf("DIRSIZE under a fault answered %d, fault-free total is %d", wire.I64(got), wire.I64(ref))
+		// a total that leaves out what could not be read is a wrong number presented as the answer:
+		// the admissible outcomes are the true total, the failure code or a disconnection
+		return "", fmt.Sprintf("DIRSIZE under a fault answered %d as a success, fault-free total is %d", wire.I64(got), wire.I64(ref))
 	case wire.OpRDE, wire.OpRDE2:
 		return "other-entry", "" // judged by the caller against the set of true entries
 	}
@@ -317,7 +321,7 @@ func (t *c13Target) quiesce() (rep *spyfs.Report, serveConn int, err error) {
 
 func C13(e *Env) {
 	run := e.Run
-	run.Rule = "cases: (scenario, fault) — for each of 12 scenarios (plain file, generated image with lazily opened members, PS3 image, encrypted image with adjacent / REDKEY key lookup, 3k3y, the three listing commands, stat/dir-size, upload, mixed handles) a recording run counts the K file-system operations, then one run per operation index with EIO injected there, one per Read with a short read, one per Close failing, plus random pairs; and every way of ending a connection (orderly close, half-close, RST, unknown opcode, truncated request, read timeout) at every request boundary and mid-request. After every run: handle ledger empty, serveConn goroutines back to 0, fresh connection served; under a fault every answer is the fault-free one, the failure code, a correct prefix + EOF or (listings, dir-size) a true subset. non-trivial = distinct (scenario, operation kind at the fault index, fault kind, outcome) / (scenario, ending, position)"
+	run.Rule = "cases: (scenario, fault) — for each of 12 scenarios (plain file, generated image with lazily opened members, PS3 image, encrypted image with adjacent / REDKEY key lookup, 3k3y, the three listing commands, stat/dir-size, upload, mixed handles) a recording run counts the K file-system operations, then one run per operation index with EIO injected there, one per Read with a short read, one per Close failing, plus random pairs; and every way of ending a connection (orderly close, half-close, RST, unknown opcode, truncated request, read timeout) at every request boundary and mid-request. After every run: handle ledger empty, serveConn goroutines back to 0, fresh connection served; under a fault every answer is the fault-free one, the failure code, a correct prefix + EOF or (listings) a true subset. non-trivial = distinct (scenario, operation kind at the fault index, fault kind, outcome) / (scenario, ending, position)"
 	root := e.Dir("W/root")
 	c13Tree(root)
 	c13ResetUp(root)
@@ -591,6 +595,12 @@ func c13RunFaulted(e *Env, t *c13Target, sc c13Scenario, ref [][]byte, desc stri
 			continue
 		}
 		v, detail := c13Judge(r, refI, got, st)
+		if v == "" && r.Op == wire.OpDirSize && st == wire.Full && strings.Contains(strings.ToUpper(desc), "ENOENT") && !strings.HasPrefix(desc, "healthy replay") &&
+			len(got) == 8 && wire.I64(got) >= 0 && wire.I64(got) <= wire.I64(refI) {
+			// the injected fault says "this object is not there (any more)": a total without it is the
+			// true total of what is left
+			v = "partial-sum"
+		}
 		switch v {
 		case "same":
 			continue
